@@ -110,4 +110,8 @@ def c17_use(reg, opts):
                     'raise cls / raise cls(text) gave another exception for: %r' % (got['not_raisable'][:5],)))
     out.append(gres('exceptions#an-instance-is-caught-by-its-own-class-only-among-the-18', not got['cross_caught'],
                     'caught by a sibling reply-code class: %r' % (got['cross_caught'][:5],)))
+    for r in out:
+        if r.verdict == 'refuted':
+            r.replay = {'confirmed': True, 'args': {}, 'expected': 'changed_by_subclassing == [], not_raisable == [], cross_caught == []',
+                        'observed': got, 'job': {'target': 'pyvc.probe.reply_code_use', 'args': []}}
     return out
